@@ -16,7 +16,7 @@ func init() { registry["C10"] = propC10 }
 func propC10() *Property {
 	return &Property{
 		ID:          "C10",
-		Explanation: "Structural clauses of collection paging only. Decided: (R1) the walk is bounded: the only recursion of harvestWithEmptyCount is guarded by the false edge of `emptyCount > 3`, the counter is incremented exactly on the empty-page edge, and every early return delivers exactly one failure item with a nil continuation; (R2) 'consecutive' means reset: on every path that does not increment the counter, the counter handed to the next page was last assigned a constant (it does not depend on the incoming counter); (R3) slot/source agreement and order: element k of this page is stored at slot k from c.elements[k+startingPoint] (difference of the linear index forms is exactly startingPoint), the result is this page's items followed by the later pages', and the next page is asked for amount-amountFromThisPage items from offset 0; (R4) continuation shape: the page names itself as continuation only under length > amount+startingPoint with next offset amount+startingPoint, otherwise it forwards the deeper result or ends with nil. (R5) in NewCollectionFromObject every path to a store of the following-page link is enumerated; `first` is read only on paths that know the kind is Collection/OrderedCollection and `next` only on paths that exclude both (pages inherit `first`, so a page falling back to it loops for ever). (R6) Harvest and everything it calls write nothing reachable from the collection and no package-level state (mutating methods of sync/atomic and sync.Map values count as writes). (R7) at every call of Harvest outside the implementing packages the collection to go on with and the offset to go on from are both used and end up in the same page (or are returned on together). (R9) client.FetchUnknown refetches every identified object of at most two keys: a {id, type} reference to a page or item is not taken for the (empty) object itself. (R10) no method of Collection stores into its elements: a page can be read again and gives the same items. NOT decided: that these pieces compose to 'every item exactly once, in order' for every layout and chunking, prefix-of-truth on cyclic chains, and the unsigned arithmetic of amountFromThisPage (value-level reasoning).",
+		Explanation: "Structural clauses of collection paging only. Decided: (R1) the walk is bounded: the only recursion of harvestWithEmptyCount is guarded by the false edge of `emptyCount > 3`, the counter is incremented exactly on the empty-page edge, and every early return delivers exactly one failure item with a nil continuation; (R2) 'consecutive' means reset: on every path that does not increment the counter, the counter handed to the next page was last assigned a constant (it does not depend on the incoming counter); (R3) slot/source agreement and order: element k of this page is stored at slot k from c.elements[k+startingPoint] (difference of the linear index forms is exactly startingPoint), the result is this page's items followed by the later pages', and the next page is asked for amount-amountFromThisPage items from offset 0; (R4) continuation shape: the page names itself as continuation only under length > amount+startingPoint with next offset amount+startingPoint, otherwise it forwards the deeper result or ends with nil. (R5) in NewCollectionFromObject every path to a store of the following-page link is enumerated; `first` is read only on paths that know the kind is Collection/OrderedCollection and `next` only on paths that exclude both (pages inherit `first`, so a page falling back to it loops for ever). (R6) Harvest and everything it calls write nothing reachable from the collection and no package-level state (mutating methods of sync/atomic and sync.Map values count as writes). (R7) at every call of Harvest outside the implementing packages the collection to go on with and the offset to go on from are both used and end up in the same page (or are returned on together). (R9) client.FetchUnknown refetches every identified object of at most two keys: a {id, type} reference to a page or item is not taken for the (empty) object itself. (R10) no method of Collection stores into its elements: a page can be read again and gives the same items. (R4, addition) the walk ends for want of a following page only where this page is known to be used up. NOT decided: that these pieces compose to 'every item exactly once, in order' for every layout and chunking, prefix-of-truth on cyclic chains, and the unsigned arithmetic of amountFromThisPage (value-level reasoning).",
 		Assumptions: []string{"goroutine fan-out in harvest is race-free (C08.R5)"},
 		Rules: []Rule{
 			{ID: "C10.R1", Title: "bounded walk: threshold guard, increment on empty pages only, failure returns", Floor: 3, Run: c10R1},
@@ -564,6 +564,37 @@ func c10R4(c *Ctx) {
 				}
 			}
 			c.check(okEnd, cname+"/continuation:nil", pos, cname, "the walk ends here: no following page, or a failure item is delivered", "the walk is ended (nil continuation) on a path that neither knows the following page to be absent nor delivers a failure item: pages that exist are never asked for")
+			// … and, where it ends because there is no following page, only once this page has
+			// nothing left beyond the request: length > amount+startingPoint has been tested and is false
+			failing := false
+			if h.laterCell != nil {
+				for _, in2 := range b.Instrs {
+					if st2, ok := in2.(*ssa.Store); ok {
+						if cell2, ok := resolveCell(st2.Addr).(*ssa.Alloc); ok && cell2 == h.laterCell && failureTriple(st2.Val, v, ssa.NewConst(constant.MakeInt64(0), types.Typ[types.Uint])) {
+							failing = true
+						}
+					}
+				}
+			}
+			if okEnd && !failing {
+				exhausted := false
+				for _, f := range factsOf(cl).At(b) {
+					cmp, ok := f.Cmp()
+					if !ok || cmp.Op != token.LEQ || !isPageLengthLoad(cmp.X) {
+						continue
+					}
+					if bo, ok := cmp.Y.(*ssa.BinOp); ok && bo.Op == token.ADD {
+						if (cellOf(bo.X) == h.amount && cellOf(bo.Y) == h.start) || (cellOf(bo.X) == h.start && cellOf(bo.Y) == h.amount) {
+							exhausted = h.amount != nil && h.start != nil
+						}
+					}
+					if !exhausted && isSumOfCells(cmp.Y, h.amount, h.start) {
+						exhausted = true
+					}
+				}
+				c.check(exhausted, cname+"/continuation:nil-after-page", pos, cname, "the walk ends only where this page has nothing beyond the request (length <= amount+startingPoint is known)",
+					"the walk is ended because there is no following page although this page is not known to be used up (length > amount+startingPoint was not tested before): the rest of a last page that holds more than was asked for is never delivered")
+			}
 		case *ssa.MakeInterface:
 			// the page itself: only when it still has items beyond this request
 			isSelf := unwrapLoad(v.X) == ssa.Value(h.fn.Params[0])
